@@ -122,6 +122,8 @@ Val(S, ty, var, depth) ==
 \* A literal is pre-resolved by lib/schemas.py: ints carry 64-bit limbs `l`, strings their bytes,
 \* doubles their IEEE bytes `bits`, enum members and constant references their value.
 RECURSIVE Lit(_, _, _)
+RECURSIVE LitFields(_, _, _, _)
+RECURSIVE DefaultFields(_, _, _, _)
 Lit(S, ty, l) ==
   LET k == KindOf(S, ty) IN
   CASE k = "bool" -> Leaf("bool", <<IF Has(l, "bool") THEN (IF l.bool THEN 1 ELSE 0) ELSE (IF l.l = ZeroInt(64) THEN 0 ELSE 1)>>)
@@ -134,6 +136,15 @@ Lit(S, ty, l) ==
     [] k \in {"list", "set"} -> [k |-> k, et |-> WT(S, ElemTy(S, ty)), es |-> [j \in 1..Len(l.list) |-> Lit(S, ElemTy(S, ty), l.list[j])]]
     [] k = "map" -> Map(WT(S, KeyTy(S, ty)), WT(S, ValTy(S, ty)),
                         [j \in 1..Len(l.map) |-> <<Lit(S, KeyTy(S, ty), l.map[j][1]), Lit(S, ValTy(S, ty), l.map[j][2])>>])
+    \* a struct literal {"field": value, ..}: the listed fields hold the given values, every other field what it holds in
+    \* the struct's own default value (Apache semantics: construct the default object, then assign the listed members)
+    [] k \in {"struct", "exception"} -> Struct(LitFields(S, DefOfTy(S, ty).fields, l.struct, 1))
+LitFields(S, fs, kvs, i) ==
+  IF i > Len(fs) THEN <<>>
+  ELSE LET f == fs[i]
+           hit == {j \in 1..Len(kvs) : kvs[j][1] = f.name}
+       IN (IF hit # {} THEN <<Fld(f.id, Lit(S, f.ty, kvs[CHOOSE j \in hit : TRUE][2]))>>
+           ELSE DefaultFields(S, <<f>>, 1, 0)) \o LitFields(S, fs, kvs, i + 1)
 
 HasDefault(f) == Has(f, "default")
 
@@ -225,7 +236,6 @@ Expect(S, ty, w, keep) ==
 \* the value of `T::default()` for a struct: IDL defaults where declared (present for optional
 \* fields), otherwise the type's empty value for required fields and absence for optional ones
 RECURSIVE ZeroVal(_, _, _)
-RECURSIVE DefaultFields(_, _, _, _)
 ZeroVal(S, ty, depth) ==
   LET k == KindOf(S, ty) IN
   CASE k \in {"bool", "i8", "i16", "i32", "i64", "double", "string", "binary", "uuid"} -> BaseVal(k, 0)
